@@ -2,8 +2,9 @@
 """copy confirmed seeded changes from /tmp/seed-<id>/<i>/ into /verif/seeded/<id>-<i>/ with meta.json"""
 import json, os, re, shutil, sys
 ev = {}
-if os.path.exists('/tmp/seed-eval.out'):
-    for l in open('/tmp/seed-eval.out'):
+import glob
+for fn in sorted(glob.glob('/tmp/seed-eval*.out')):
+    for l in open(fn):
         m = re.match(r"EVAL (\S+) rc=(\d+) wall=(\d+)s (\d+) violations; (.*)", l)
         if m:
             ev[m.group(1)] = {"check_exit": int(m.group(2)), "wall_s": int(m.group(3)), "violations": int(m.group(4)), "first_line": m.group(5).strip()[:300]}
